@@ -21,7 +21,8 @@ def one(pid):
 
 
 def main():
-    pids = sorted(d for d in os.listdir(os.path.join(B.VERIF, "props")) if os.path.exists(os.path.join(B.VERIF, "props", d, "prop.py")))
+    from ready import READY
+    pids = [d for d in READY if os.path.exists(os.path.join(B.VERIF, "props", d, "prop.py"))]
     # build the library objects once first so the parallel prop builds hit the cache
     B.build_lib("asan")
     ok = True
